@@ -70,6 +70,8 @@ def sources(body, op, depth=0, seen=None):
             out |= sources(body, {"c": rv["p"]}, depth + 1, seen)
         elif k == "bin":
             out |= sources(body, rv["a"], depth + 1, seen) | sources(body, rv["b"], depth + 1, seen)
+            if rv["op"] not in ("Eq", "Ne", "Lt", "Le", "Gt", "Ge"):
+                out.add(("arith", rv["op"].replace("WithOverflow", "")))
         elif k == "un":
             out |= sources(body, rv["a"], depth + 1, seen)
         elif k == "agg":
